@@ -49,6 +49,9 @@ func FloatNew(metatype *Type, args Tuple, kwargs StringDict) (Object, error) {
 
 func (a Float) M__str__() (Object, error) {
 	if i := int64(a); Float(i) == a {
+		if i == 0 && math.Signbit(float64(a)) {
+			return String("-0.0"), nil
+		}
 		return String(fmt.Sprintf("%d.0", i)), nil
 	}
 	return String(fmt.Sprintf("%g", a)), nil
